@@ -17,6 +17,7 @@ from mloda.core.runtime.compute_framework_executor import ComputeFrameworkExecut
 from mloda.core.core.cfw_manager import CfwManager, MyManager
 from mloda.core.abstract_plugins.components.parallelization_modes import ParallelizationMode
 from mloda.core.runtime.flight.runner_flight_server import ParallelRunnerFlightServer
+from mloda.core.runtime.flight.flight_server import FlightServer
 from mloda.core.core.step.feature_group_step import FeatureGroupStep
 from mloda.core.core.step.join_step import JoinStep
 from mloda.core.core.step.transform_frame_work_step import TransformFrameworkStep
@@ -133,6 +134,7 @@ class ExecutionOrchestrator:
         finally:
             self.data_lifecycle_manager.set_artifacts(self.cfw_register.get_artifacts())
             self.join()
+            self._drop_remaining_flight_data()
 
     def compute_stream(self) -> Generator[Tuple[UUID, Any], None, None]:
         """Generator variant of ``compute()`` that yields results as they complete.
@@ -191,6 +193,18 @@ class ExecutionOrchestrator:
         finally:
             self.data_lifecycle_manager.set_artifacts(self.cfw_register.get_artifacts())
             self.join()
+            self._drop_remaining_flight_data()
+
+    def _drop_remaining_flight_data(self) -> None:
+        """
+        Removes every dataset this run uploaded to the flight server and that is still stored there
+        (e.g. after a failed run, or datasets that were uploaded for joins and framework transformations).
+        """
+        if not self.location:
+            return
+        keys = {str(cfw_uuid) for cfw_uuid in self.executor.cfw_collection}
+        if keys:
+            FlightServer.drop_tables(self.location, keys)
 
     def _process_step_result(self, step: Any) -> Union[Any, bool]:
         """
